@@ -310,10 +310,10 @@ def _is_single_string(rest):
 
 
 def tla_value(s):
-    """Tiny parser for printed TLA+ values made of ints, strings, tuples,
-    sets, booleans (enough for ACCEPT/STUCK lines)."""
+    """Parser for printed TLA+ values: ints, strings, booleans, tuples <<..>>, sets {..},
+    records [a |-> v, ...] (-> dict) and functions (a :> v @@ ...) are not needed."""
     s = s.strip()
-    toks = re.findall(r'<<|>>|\{|\}|,|-?\d+|"(?:[^"\\]|\\.)*"|TRUE|FALSE|[A-Za-z_]\w*', s)
+    toks = re.findall(r'<<|>>|\{|\}|\[|\]|\|->|,|-?\d+|"(?:[^"\\]|\\.)*"|TRUE|FALSE|[A-Za-z_]\w*', s)
     pos = [0]
 
     def val():
@@ -329,6 +329,19 @@ def tla_value(s):
                 items.append(val())
             pos[0] += 1
             return items
+        if t == "[":
+            rec = {}
+            while toks[pos[0]] != "]":
+                if toks[pos[0]] == ",":
+                    pos[0] += 1
+                    continue
+                key = toks[pos[0]]
+                if toks[pos[0] + 1] != "|->":
+                    raise ValueError("unsupported TLA+ value near %r" % key)
+                pos[0] += 2
+                rec[key] = val()
+            pos[0] += 1
+            return rec
         if t == "TRUE":
             return True
         if t == "FALSE":
@@ -346,6 +359,28 @@ def tla_value(s):
             continue
         vals.append(val())
     return vals if len(vals) != 1 else vals[0]
+
+
+def parse_sim_traces(directory, prefix="tr"):
+    """Behaviours written by `tlc -simulate file=<dir>/<prefix>,num=N`: returns, per behaviour,
+    the list of states (dict variable -> value)."""
+    out = []
+    for f in sorted(os.listdir(directory)):
+        if not f.startswith(prefix + "_"):
+            continue
+        txt = open(os.path.join(directory, f)).read()
+        states = []
+        for block in re.split(r"\nSTATE_\d+ == *\n", "\n" + txt)[1:]:
+            block = block.split("\n\n")[0]
+            st = {}
+            for part in re.split(r"\n?/\\ (?=\w+ = )", "\n" + block):
+                m = re.match(r"(\w+) = (.*)$", part.strip(), re.S)
+                if m:
+                    st[m.group(1)] = tla_value(m.group(2))
+            if st:
+                states.append(st)
+        out.append(states)
+    return out
 
 
 def write_cfg(path, spec=None, init=None, next_=None, invariants=(), properties=(), constants=None,
